@@ -209,12 +209,13 @@ Section Facts.
     /\ root_wf S (s_query S) = true /\ opt_root_wf S (s_mutation S) = true
     /\ opt_root_wf S (s_subscription S) = true.
   Proof.
-    unfold wf_schema in WF. andb_split WF.
-    repeat split; auto.
-    - apply nodup_b_NoDup. auto.
-    - apply nodup_b_NoDup. auto.
-    - apply forallb_forall. auto.
-    - apply forallb_forall. auto.
+    pose proof WF as W. unfold wf_schema in W. andb_split W.
+    split. { apply (proj1 (nodup_b_NoDup _)). exact W. }
+    split. { apply (proj1 (nodup_b_NoDup _)). exact W5. }
+    rewrite forallb_forall in W4. rewrite forallb_forall in W3.
+    split. { exact W4. }
+    split. { exact W3. }
+    auto.
   Qed.
 
   Hypothesis GOK : gen_ok S.
@@ -230,27 +231,25 @@ Section Facts.
     /\ (s_mutation S = None -> has_object_named #"Mutation" S = false)
     /\ (s_subscription S = None -> has_object_named #"Subscription" S = false).
   Proof.
-    unfold gen_ok, generate_lossy in GOK.
-    apply app_nil_both in GOK. destruct GOK as [G1 G]. apply app_nil_both in G. destruct G as [G2 G].
+    pose proof GOK as G0. unfold gen_ok, generate_lossy in G0.
+    apply app_nil_both in G0. destruct G0 as [G1 G]. apply app_nil_both in G. destruct G as [G2 G].
     apply app_nil_both in G. destruct G as [G3 G]. apply app_nil_both in G. destruct G as [G4 G].
     apply app_nil_both in G. destruct G as [G5 G6].
     apply if_nil in G1. apply if_nil in G2. apply if_nil in G3. apply if_nil in G4. apply if_nil in G5. apply if_nil in G6.
     apply orb_false_iff in G1. destruct G1 as [G1a G1b].
     apply orb_false_iff in G5. destruct G5 as [G5a G5b].
     apply orb_false_iff in G6. destruct G6 as [G6a G6b].
-    repeat split.
-    - intros ds I. apply (existsb_false_In _ _ _ G1a I).
-    - intros t I. apply (existsb_false_In _ _ _ G1b I).
-    - intros ds I E. pose proof (existsb_false_In _ _ _ G2 I) as G. cbv beta in G. rewrite E in G. discriminate.
-    - intros iv v I E. pose proof (existsb_false_In _ _ _ G3 I) as G. cbv beta in G. rewrite E in G.
-      apply negb_false_iff in G. auto.
-    - pose proof (existsb_false_In _ _ _ G4 H) as G. cbv beta in G. apply orb_false_iff in G. destruct G as [G _].
-      apply bytes_eqb_neq. auto.
-    - pose proof (existsb_false_In _ _ _ G4 H) as G. cbv beta in G. apply orb_false_iff in G. destruct G as [_ G].
-      intro I. apply mem_bytes_In in I. congruence.
-    - intros t I M. pose proof (existsb_false_In _ _ _ G5a I) as G. cbv beta in G. apply mem_bytes_In in M. congruence.
-    - intros d I M. pose proof (existsb_false_In _ _ _ G5b I) as G. cbv beta in G. apply mem_bytes_In in M. congruence.
-    - intro E. rewrite E in G6a. auto.
-    - intro E. rewrite E in G6b. auto.
+    split. { intros ds I. apply (existsb_false_In _ _ _ G1a I). }
+    split. { intros t I. apply (existsb_false_In _ _ _ G1b I). }
+    split. { intros ds I E. pose proof (existsb_false_In _ _ _ G2 I) as G. cbv beta in G. rewrite E in G. discriminate. }
+    split. { intros iv v I E. pose proof (existsb_false_In _ _ _ G3 I) as G. cbv beta in G. rewrite E in G.
+      apply negb_false_iff in G. auto. }
+    split. { intros t H. pose proof (existsb_false_In _ _ _ G4 H) as G. cbv beta in G. apply orb_false_iff in G. destruct G as [G G'].
+      split. { apply bytes_eqb_neq. auto. }
+      intro I. apply mem_bytes_In in I. congruence. }
+    split. { intros t I M. pose proof (existsb_false_In _ _ _ G5a I) as G. cbv beta in G. apply mem_bytes_In in M. congruence. }
+    split. { intros d I M. pose proof (existsb_false_In _ _ _ G5b I) as G. cbv beta in G. apply mem_bytes_In in M. congruence. }
+    split. { intro E. rewrite E in G6a. auto. }
+    intro E. rewrite E in G6b. auto.
   Qed.
 End Facts.
